@@ -207,12 +207,18 @@ Definition hex_value (c : byte) : option N :=
   else if in_range 97 102 c then Some (bn c - 87)%N
   else None.
 
-(* percent-encoded text: ANY byte may be written %HH; a byte may be written raw only where [may_be_raw] allows it *)
+(* percent-encoded text: ANY byte may be written %HH; a byte may be written raw only where [may_be_raw] allows it; in the query
+   context a space may be written '+' *)
 Inductive pct_text (cx : context) : bytes -> bytes -> Prop :=
 | pt_nil : pct_text cx [] []
 | pt_raw c w s : may_be_raw cx c = true -> pct_text cx w s -> pct_text cx (c :: w) (c :: s)
 | pt_esc h l a b w s :
-    hex_value h = Some a -> hex_value l = Some b -> pct_text cx w s -> pct_text cx (x25 :: h :: l :: w) (nb (16 * a + b) :: s).
+    hex_value h = Some a -> hex_value l = Some b -> pct_text cx w s -> pct_text cx (x25 :: h :: l :: w) (nb (16 * a + b) :: s)
+(* in a URL QUERY string (application/x-www-form-urlencoded heritage) a space may also be written '+'.  Only there: in a path
+   segment and in a header '+' is a literal plus (it is in [may_be_raw InPath] / [may_be_raw InHeader] and never in
+   [may_be_raw InQuery], so the two readings never overlap).  Readers must accept it; a Rest.li writer writes %20 (see
+   Props/C03.v query_output_never_plus). *)
+| pt_plus w s : cx = InQuery -> pct_text cx w s -> pct_text cx (x2b :: w) (x20 :: s).
 
 Definition txt_empty_string : bytes := [x27; x27].                      (* '' *)
 Definition txt_list_open : bytes := [x4c; x69; x73; x74; x28].          (* List( *)
